@@ -79,12 +79,12 @@ impl Display for TokenKind {
             TokenKind::Lit(_) => "literal",
             TokenKind::Dir(_) => "preprocessor directive",
             TokenKind::Reg(_) => "register",
-            TokenKind::Whitespace
-            | TokenKind::Comment
-            | TokenKind::Eof
-            | TokenKind::Byte(_)
-            | TokenKind::Breakpoint => {
-                unreachable!("whitespace, comment, eof, byte, breakpoint attempted to be displayed")
+            // Produced by the preprocessor from `.fill`/`.blkw`/`.stringz` and `.break`, so they can
+            // appear wherever a diagnostic names an unexpected token
+            TokenKind::Byte(_) => "data directive",
+            TokenKind::Breakpoint => "breakpoint directive",
+            TokenKind::Whitespace | TokenKind::Comment | TokenKind::Eof => {
+                unreachable!("whitespace, comment, eof attempted to be displayed")
             }
         };
         f.write_str(lit)
